@@ -16,6 +16,7 @@ The relational oracle is evaluated concretely per configuration: bounded exhaust
 import edzed
 from edzed import simulator
 from symx.edz import sync_circuit, fresh_circuit, Settable
+from symx.core import eq_
 
 PROPERTY = 'C15'
 LEVEL = 'exploration'
@@ -226,7 +227,10 @@ INVALID = ['unknown-name', 'unknown-not', 'foreign-block', 'foreign-event-dest',
 
 def scen_invalid(env, which):
     other = fresh_circuit()
-    foreign = edzed.Input('foreign', initdef=0)
+    # the block of the other circuit may have a namesake in the current circuit ('s0'): a reference by OBJECT must
+    # still be refused - it is not the block of that name in this circuit
+    fname = 's0' if which.startswith('foreign') and env.choose(2, 'foreign_has_a_namesake') else 'foreign'
+    foreign = edzed.Input(fname, initdef=0)
     circ = sync_circuit()
     s0 = edzed.Input('s0', initdef=0)
     stage = {}
@@ -323,6 +327,91 @@ def scen_invalid(env, which):
     env.obs('invalid', which, stage)
 
 
+def scen_public_finalize(env):
+    """Circuit.finalize() called explicitly by the application (docs/simulation.rst), not by the simulator: afterwards
+    the references given by name - inputs, '_not_' shortcuts, event destinations, filter control blocks, the implicit
+    control block of Event.shutdown() - are resolved, the circuit is frozen, and it still starts and works"""
+    import asyncio
+    from symx import vloop
+    circ = fresh_circuit()
+    v = env.int('v')
+    s0 = edzed.Input('s0', initdef=0)
+    s1 = edzed.Input('s1', initdef=1)
+    sink = edzed.Input('sink', initdef=0)
+    c0 = edzed.Or('c0').connect('s0', '_not_s1')
+    by_name = env.choose(2, 'events_by_name')
+    with_ctrl = env.choose(2, 'with_control_event')
+    fk = env.choose(3, 'filter')
+    flt = [edzed.IfOutput('_not_s0' if by_name else s1), edzed.NotIfInitialized('s0' if by_name else s0),
+           edzed.DataEdit.add_output('k', '_not_s1' if by_name else s1)][fk]
+    ev = edzed.Event('sink' if by_name else sink, 'put', efilter=[edzed.not_from_undef, flt])
+    trig = edzed.Input('trig', initdef=0, on_output=ev)
+    ctrl_ev = edzed.Event.shutdown() if with_ctrl else None       # refers to the implicit block '_ctrl' by name
+    res = {}
+    try:
+        circ.finalize()
+        res['finalize'] = None
+    except Exception as err:
+        res['finalize'] = err
+    env.check('public-finalize', res['finalize'] is None and circ.is_finalized(), info=lambda: res)
+    if res['finalize'] is not None:
+        return
+    blocks = {b.name: b for b in circ.getblocks()}
+    try:
+        ok = ev.dest is sink and c0.inputs['_'] == (s0, blocks.get('_not_s1')) and c0 in s0.oconnections \
+            and blocks['_not_s1'].inputs['_'] == (s1,) and c0 in blocks['_not_s1'].oconnections
+        # a filter whose control block is still a name fails (assertion / attribute error) when called
+        flt({'value': 1, 'previous': 0})
+    except Exception as err:
+        ok = False
+        res['access'] = err
+    env.check('by-name-resolved', ok, info=lambda: (by_name, fk, res, sorted(blocks)))
+    for what, fn in (('addblock', lambda: edzed.Input('late', initdef=0)), ('connect', lambda: edzed.And('late2').connect(s0)),
+                     ('storage', lambda: circ.set_persistent_data({}))):
+        try:
+            fn()
+            refused = False
+        except edzed.EdzedInvalidState:
+            refused = True
+        except Exception as err:
+            refused = ('other', err)
+        env.check('frozen', refused is True, info=lambda: (what, refused))
+
+    async def main():
+        task = asyncio.create_task(circ.run_forever())
+        try:
+            await circ.wait_init()
+            res['start'] = None
+        except Exception as err:
+            res['start'] = err
+            try:
+                await task
+            except BaseException as err2:
+                res['start'] = err2
+            return
+        trig.event('put', value=v + 1000)
+        await asyncio.sleep(0)
+        res['sink'] = sink.output
+        if with_ctrl:
+            ctrl_ev.send(trig)
+            try:
+                await task
+            except asyncio.CancelledError:
+                res['stopped'] = True
+            except BaseException as err:
+                res['stopped'] = err
+        else:
+            await circ.shutdown()
+    vloop.run(main())
+    env.check('starts-after-public-finalize', res.get('start') is None, info=lambda: res)
+    if res.get('start') is None:
+        # IfOutput: _not_s0 is True (s0 = 0) / s1 is 1 -> passes; NotIfInitialized: s0 is initialised -> dropped;
+        # add_output: passes
+        env.check('event-works', bool(eq_(res['sink'], 0 if fk == 1 else v + 1000)), info=lambda: (fk, res))
+        if with_ctrl:
+            env.check('control-event-works', res.get('stopped') is True, info=lambda: res)
+
+
 def shards(tier):
     out = []
     if tier == 'quick':
@@ -344,4 +433,5 @@ def shards(tier):
                         'cost': 46})
     for w in INVALID:
         out.append({'name': f'invalid {w}', 'scenario': 'scen_invalid', 'params': {'which': w}})
+    out.append({'name': 'public finalize()', 'scenario': 'scen_public_finalize'})
     return out
